@@ -384,7 +384,7 @@ def run(ctx):
         shutil.rmtree(tmp, ignore_errors=True)
     layer_switch_across_boundaries(ctx, 12 if ctx.quick else 100)
     layer_redefinition_histories(ctx, 10 if ctx.quick else 120)
-    layer_slots_in_translation_blocks(ctx, 12 if ctx.quick else 150)
+    layer_slots_in_translation_blocks(ctx, 40 if ctx.quick else 400)
     layer_whole_template(ctx, 30 if ctx.quick else 500)
     layer_load_across_directories(ctx, 10 if ctx.quick else 150)
 
@@ -535,14 +535,22 @@ def layer_slots_in_translation_blocks(ctx, n):
             'slot-in-nested-name': '<p i18n:translate="">o <b i18n:name="n"><u i18n:translate="">i <q i18n:name="k">%s</q> j</u></b> p</p>',
             'plain': '(%s)',
         }
-        lib = '<lib><m metal:define-macro="m">%s${f(2)}</m></lib>' % (shapes[where] % slot)
+        # the same slot name may be defined a second time elsewhere in the macro (outside / inside another block): every
+        # region of the name is replaced by the filler
+        second = rng.choice(['', '', '{%s}', '<p i18n:translate="">X %s Y</p>', '<p i18n:translate="">v <b i18n:name="w">%s</b></p>'])
+        before = rng.random() < .5
+        extra_slot = second % slot if second else ''
+        extra_inl = second % filler if second else ''
+        body_slot = (extra_slot + shapes[where] % slot) if before else (shapes[where] % slot + extra_slot)
+        body_inl = (extra_inl + shapes[where] % filler) if before else (shapes[where] % filler + extra_inl)
+        lib = '<lib><m metal:define-macro="m">%s${f(2)}</m></lib>' % body_slot
         use = '<u metal:use-macro="lib.macros[\'m\']">%s</u>' % fsrc
-        inl = '<m>%s${f(2)}</m>' % (shapes[where] % filler)
+        inl = '<m>%s${f(2)}</m>' % body_inl
         wrap = {'plain': '%s', 'translate': '<p i18n:translate="">C %s D</p>', 'name': '<p i18n:translate="">C <b i18n:name="k9">%s</b> D</p>'}[caller_in]
         got = render('<x>' + wrap % use + '</x>', {}, lib=lib)
         want = render('<x>' + wrap % inl + '</x>', {})
         ctx.mon('translation-block-slots-compared')
-        ctx.case(key=('slot-in-translation-block', where, caller_in, filler[:8]), nontrivial=True)
+        ctx.case(key=('slot-in-translation-block', where, caller_in, filler[:8], second[:12], before), nontrivial=True)
         if got != want:
             ctx.violation('slot-in-translation-block-differs', 'slot %s, use %s\n  LIB %r\n  CALLER %r\n  with METAL %r\n  inlined %r' % (
                 where, caller_in, lib, wrap % use, got, want),
